@@ -7,7 +7,7 @@ Request line (history):  `<tok> <tok> …` optionally followed by TAB and the im
         | `[` … `]`  build a sub-buffer from the enclosed tokens and `append_src` it
 Answer: one token per top-level op: `<indent>:<hex s>` (`:<old>` for `s`, `:<hex sub.s>:<sub indent>` for `]`),
   `P` (and stop) at a panic.  With an implementation answer supplied, TAB `spec=` and one verdict per
-  observed token: the C25 monitors (`SourceSpec.monitor`) evaluated on the implementation's outputs.
+  observed token: the C25 monitors (`SourceSpec.monitorAll`) evaluated on the implementation's outputs.
 Request line (literal, metamorphic):  `lit` TAB `<indent>:<hex s>` TAB `<indent>:<hex s>`  →  `ok`/`fail`
   (`SourceSpec.literalPairOk` on the observations of the original and the neutralised run)
 Request line (str glue):  `str` TAB `<fn> <hex> [<hex>]`  →  as `text-run ruststr`. -/
@@ -108,12 +108,22 @@ def showLoss (l : SourceSpec.Loss) : String :=
 
 def showVerdict (v : SourceSpec.Verdict) : String :=
   let fails :=
-    (match v.content with | .ok => [] | .known l => ["content:" ++ showLoss l] | .other => ["content:other"]) ++
+    (match v.content with
+      | .ok => [] | .known l => ["content:" ++ showLoss l] | .other => ["content:other"]
+      | .stale l => ["content:stale" ++ (if l == SourceSpec.Loss.none then "" else "+" ++ showLoss l)]) ++
     (if v.level then [] else ["level"]) ++ (if v.lineIndent then [] else ["lineindent"]) ++
     (if v.literal then [] else ["literal"]) ++ (if v.balanced then [] else ["balanced"]) ++
     (if v.api then [] else ["api"])
   (if fails.isEmpty then "ok" else ",".intercalate fails) ++
     "/" ++ (if v.checkedLevel then "L" else "") ++ (if v.checkedBalanced then "B" else "")
+
+def showVerdictAll (v : SourceSpec.VerdictAll) : String :=
+  let b := showVerdict v.base
+  match v.bufferLine with
+  | .na => b
+  | .ok => b ++ "W"                       -- whole-buffer-line reading checked and agreed
+  | .knownSplit => (if b.startsWith "ok/" then "bufline:split" ++ (b.drop 2).toString else "bufline:split," ++ b) ++ "W"
+  | .other => (if b.startsWith "ok/" then "bufline:other" ++ (b.drop 2).toString else "bufline:other," ++ b) ++ "W"
 
 def handleHistory (line : String) : String :=
   let parts := line.splitOn "\t"
@@ -128,10 +138,10 @@ def handleHistory (line : String) : String :=
       match pairUp (topLevel toks 0 []) iouts with
       | none => model ++ "\tspec=malformed"
       | some pairs =>
-        let vs := SourceSpec.monitor SourceSpec.Track.init { indent := 0, s := [] } pairs
+        let vs := SourceSpec.monitorAll SourceSpec.Track.init {} { indent := 0, s := [] } pairs
         -- the implementation must answer every request unless it panicked
         let complete := iouts.length == (topLevel toks 0 []).length || iouts.getLast? == some "P"
-        model ++ "\tspec=" ++ (if complete then "" else "short ") ++ " ".intercalate (vs.map showVerdict)
+        model ++ "\tspec=" ++ (if complete then "" else "short ") ++ " ".intercalate (vs.map showVerdictAll)
     | _ => model
 
 def bit (b : Bool) : String := if b then "1" else "0"
